@@ -53,6 +53,14 @@ mut("M39-writer-swap-outside-lock", ["C08"], "log.go", "\t\tl.readers[len(l.read
 mut("M40-no-segment-changed-check", ["C08"], "log_writer.go", "\tif len(rs.SurviveOffsets)+len(rs.DeletedMessages) != w.index.Len() {", "\tif false && len(rs.SurviveOffsets)+len(rs.DeletedMessages) != w.index.Len() {", "head delete does not re-validate that the segment is unchanged")
 mut("M41-gc-closes-inuse", ["C08"], "log_reader.go", "\tif r.messages == nil || r.messagesInuse.Load() > 0 {\n\t\treturn nil\n\t}\n\n\tif err := r.messages.Close(); err != nil {\n\t\treturn err\n\t}\n\tr.messages = nil\n\treturn nil\n}\n\nfunc (r *reader) Close() error {", "\tif r.messages == nil {\n\t\treturn nil\n\t}\n\n\tif err := r.messages.Close(); err != nil {\n\t\treturn err\n\t}\n\tr.messages = nil\n\treturn nil\n}\n\nfunc (r *reader) Close() error {", "GC unmaps a segment that a Consume is reading")
 
+ALL = ["C%02d" % i for i in range(1, 21)]
+mut("B01-benign-always-sync", ALL, "log.go", "\tif l.opts.AutoSync {\n\t\tif err := l.writer.Sync(); err != nil {", "\tif l.opts.AutoSync || len(msgs) > 2 {\n\t\tif err := l.writer.Sync(); err != nil {", "BENIGN: extra fsync after larger batches", control=True)
+mut("B02-benign-consume-caps-16", ALL, "log_reader.go", "\tmsgs, err := messages.Consume(position, maxPosition, maxCount)", "\tif maxCount > 16 {\n\t\tmaxCount = 16\n\t}\n\tmsgs, err := messages.Consume(position, maxPosition, maxCount)", "BENIGN: Consume returns at most 16 messages per call (allowed: 'at most maxCount')", control=True)
+mut("B03-benign-rollover-ge", ALL, "log_writer.go", "return w.index.Len() > 0 && w.messages.Size() > rollover", "return w.index.Len() > 0 && w.messages.Size() >= rollover", "BENIGN: rollover at >= instead of >", control=True)
+mut("B04-benign-backup-always-copies", ALL, "pkg/segment/utils.go", "\t\tcase stat.Size() == dstStat.Size() && stat.ModTime().Equal(dstStat.ModTime()):", "\t\tcase false && stat.Size() == dstStat.Size() && stat.ModTime().Equal(dstStat.ModTime()):", "BENIGN: backup always re-copies", control=True)
+mut("B05-benign-gc-keeps-messages", ALL, "log_reader.go", "\tr.closeIndex()\n\tverifhook.Pause(\"reader.gc.after-index-drop\")\n\n\tr.messagesMu.Lock()\n\tdefer r.messagesMu.Unlock()\n\n\tif r.messages == nil || r.messagesInuse.Load() > 0 {", "\tr.closeIndex()\n\tverifhook.Pause(\"reader.gc.after-index-drop\")\n\n\tr.messagesMu.Lock()\n\tdefer r.messagesMu.Unlock()\n\n\tif true || r.messages == nil || r.messagesInuse.Load() > 0 {", "BENIGN: GC drops indexes but keeps message files mapped", control=True)
+mut("B06-benign-delete-one-segment-first-three", ALL, "pkg/segment/segment.go", "\t\tif _, ok := dropOffsets[msg.Offset]; ok {\n\t\t\tdst.DeletedMessages", "\t\tif _, ok := dropOffsets[msg.Offset]; ok && len(dst.DeletedMessages) < 3 {\n\t\t\tdst.DeletedMessages", "BENIGN?: a single Delete removes at most three messages (allowed: 'does not guarantee that it will delete all'); the Multi helpers loop", control=True)
+
 def apply_special(m, root):
     if m["id"] == "M17-v2-swap-fields":
         p = os.path.join(root, m["file"]); s = open(p).read()
